@@ -122,7 +122,11 @@ fn main() {
             std::panic::set_hook(Box::new(|_| {}));
             let out_path = arg_value(&args, "--out").expect("--out");
             let mut out = BufWriter::new(std::fs::File::create(&out_path).expect("create out"));
-            let outcome = if arg_value(&args, "--mode").as_deref() == Some("hot") {
+            let outcome = if arg_value(&args, "--mode").as_deref() == Some("contend") {
+                hist::run_contend(seed, rounds, ops, readers, Duration::from_millis(timeout_ms), &mut out)
+            } else if arg_value(&args, "--mode").as_deref() == Some("handover") {
+                hist::run_handover(seed, rounds, ops, Duration::from_millis(timeout_ms), &mut out)
+            } else if arg_value(&args, "--mode").as_deref() == Some("hot") {
                 hist::run_hot(seed, rounds, readers, ops, Duration::from_millis(timeout_ms), &mut out)
             } else {
                 hist::run(seed, rounds, writers, readers, ops, Duration::from_millis(timeout_ms), &mut out)
